@@ -3,19 +3,20 @@
 # Confirms in a fresh scratch worktree of /repo: demo passes without the change, fails with it, the repository's test suite
 # passes with it; then runs the given quick checks against the changed worktree. Removes the worktree afterwards.
 sd="$1"; shift
+tag=$(basename "$(dirname "$sd")")   # per-seed log names: several verifications may run side by side
 wt=$(mktemp -d /tmp/vf-sv-XXXXXX); rmdir "$wt"
 git -C /repo worktree add -q "$wt" HEAD || exit 2
 cd "$(dirname "$0")/.." || exit 2
 export VERIF_EVIDENCE_DIR="$PWD/out/evidence-scratch"; mkdir -p "$VERIF_EVIDENCE_DIR"   # these runs must not overwrite evidence/
 mkdir -p out
-PYTHONPATH="$wt" /venv/bin/python "$sd/demo.py" > out/sv-demo0.log 2>&1; d0=$?
+PYTHONPATH="$wt" /venv/bin/python "$sd/demo.py" > out/sv-$tag-demo0.log 2>&1; d0=$?
 if ! git -C "$wt" apply "$sd/patch.diff"; then echo "PATCH DOES NOT APPLY"; git -C /repo worktree remove --force "$wt"; exit 2; fi
-PYTHONPATH="$wt" /venv/bin/python "$sd/demo.py" > out/sv-demo1.log 2>&1; d1=$?
-(cd "$wt" && /venv/bin/python -m pytest -q -p no:cacheprovider --benchmark-disable --deselect autobean_refactor/tests/benchmark -x > /tmp/sv-tests.log 2>&1); t=$?
-echo "demo_without=$d0 demo_with=$d1 tests_with=$t ($(tail -1 /tmp/sv-tests.log | cut -c1-60))"
+PYTHONPATH="$wt" /venv/bin/python "$sd/demo.py" > out/sv-$tag-demo1.log 2>&1; d1=$?
+(cd "$wt" && /venv/bin/python -m pytest -q -p no:cacheprovider --benchmark-disable --deselect autobean_refactor/tests/benchmark -x > /tmp/sv-tests-$tag.log 2>&1); t=$?
+echo "[$tag] demo_without=$d0 demo_with=$d1 tests_with=$t ($(tail -1 /tmp/sv-tests-$tag.log | cut -c1-60))"
 for id in "$@"; do
-  VERIF_REPO="$wt" ./check "$id" --no-min > "out/sv-$id.log" 2>&1
-  echo "  check $id rc=$? $(tail -1 out/sv-$id.log | cut -c1-150)"
-  grep -h "bucket=" "out/sv-$id.log" | head -4
+  VERIF_REPO="$wt" ./check "$id" --no-min > "out/sv-$tag-$id.log" 2>&1
+  echo "  check $id rc=$? $(tail -1 out/sv-$tag-$id.log | cut -c1-150)"
+  grep -h "bucket=" "out/sv-$tag-$id.log" | head -4
 done
 git -C /repo worktree remove --force "$wt"
